@@ -147,7 +147,18 @@ pub fn run_case_with(i: u64, rng: &mut Rng, rep: &mut Report, verbose: bool, for
                 if !matches!(m.op, Req::Search { .. }) {
                     continue;
                 }
-                let pc = m.controls.as_ref().and_then(|cs| cs.iter().find(|c| c.oid == PAGED_OID.as_bytes())).and_then(|c| c.val.as_ref()).and_then(|v| parse_paged(v));
+                let n_paging = m.controls.as_ref().map(|cs| cs.iter().filter(|c| c.oid == PAGED_OID.as_bytes()).count()).unwrap_or(0);
+                let pc = if n_paging > 1 {
+                    // not a request this server can page on; it is judged from the request log
+                    None
+                } else {
+                    m.controls.as_ref().and_then(|cs| cs.iter().find(|c| c.oid == PAGED_OID.as_bytes())).and_then(|c| c.val.as_ref()).and_then(|v| parse_paged(v))
+                };
+                // a conversation that does not end is cut off (and reported through the request count)
+                if reqs.len() > pages2.len() + 60 {
+                    notes.push("more than 60 requests beyond the number of pages".into());
+                    break;
+                }
                 let page_ix = match &pc {
                     None => {
                         notes.push("search without a well-formed paging control".into());
@@ -282,7 +293,7 @@ pub fn run_case_with(i: u64, rng: &mut Rng, rep: &mut Report, verbose: bool, for
         return;
     }
     for n in &server_notes {
-        let sig = if n.starts_with("unknown cookie") { "follow-up-carries-a-cookie-the-server-never-returned" } else if n.starts_with("search without") { "request-without-paging-control" } else { "undecodable-request" };
+        let sig = if n.starts_with("unknown cookie") { "follow-up-carries-a-cookie-the-server-never-returned" } else if n.starts_with("search without") { "request-without-exactly-one-well-formed-paging-control" } else if n.starts_with("more than") { "paging-does-not-end" } else { "undecodable-request" };
         rep.violation(format!("C16:{}", sig), n.clone(), replay.clone());
     }
     // ---- server side: request sequence ----
